@@ -1,7 +1,7 @@
-"""C20 - xzgrep / xzegrep / xzfgrep / xzdiff / xzcmp act as grep / diff / cmp on decompressed data; names are data.
+"""C20 - xzgrep / xzegrep / xzfgrep / xzdiff / xzcmp act as grep / diff / cmp on decompressed data; names are data (also for xzmore / xzless).
 
 Scenario (JSON-able dict, every string is latin-1: one char == one byte):
-  prog    xzgrep | xzegrep | xzfgrep | xzdiff | xzcmp
+  prog    xzgrep | xzegrep | xzfgrep | xzdiff | xzcmp | xzmore | xzless (the two pagers: injection oracle only)
   files   [{stem, fmt, state, lines, eol, cut, lzidx}]      name = stem + suffix(fmt)
           fmt   plain | xz | lzma | lz | txz | tlz | gz | bz2   (gz/bz2 only when gzip/bzip2 exist)
           state ok | trunc (magic bytes kept, tail cut off => undecodable) | missing
@@ -40,7 +40,9 @@ from . import base
 
 CORE_META = ["\n", "'", '"', ";", "&", "|", "\\"]
 CMD_META = ["$(touch CANARY)", "`touch CANARY`", "$(echo C20$((6*7))MARK)", ";touch CANARY;", "';touch CANARY;'",
-            "\";touch CANARY;\"", "|touch CANARY", "&touch CANARY&", "\ntouch CANARY\n", "$IFS", "${HOME}", "$0"]
+            "\";touch CANARY;\"", "|touch CANARY", "&touch CANARY&", "\ntouch CANARY\n", "$IFS", "${HOME}", "$0",
+            # the same without a space (a quoting layer that escapes blanks but forgets ; $ ` | would split "touch CANARY" into a command name)
+            ";touch${IFS}CANARY;", "$(touch${IFS}CANARY)", "`touch${IFS}CANARY`", "|touch${IFS}CANARY|"]
 SED_META = ["|w SEDCANARY\n", "|e touch CANARY\n", "|;w SEDCANARY\n", "\\1", "\\n", "&&", "\\&", "\\|", "\\\n", "a\\"]
 OTHER_META = [" ", "*", "?", "[", "]", "$", "<", ">", "(", ")", "{", "}", "~", "#", "!", ":", "\t", "=", "%", "^", "\r",
               ",", "@", "+"]
@@ -77,6 +79,8 @@ MARKER = b"C2042MARK"
 _PATH = base.clean_env()["PATH"]
 HAVE = {t: shutil.which(t, path=_PATH) is not None for t in ("gzip", "bzip2", "grep", "diff", "cmp", "sed")}
 FORMATS = ["plain", "plain", "xz", "xz", "xz", "lzma", "lz", "txz", "tlz"] + (["gz"] if HAVE["gzip"] else []) + (["bz2"] if HAVE["bzip2"] else [])
+# the pagers of the same family (names are data there too): xzmore always (PAGER=cat), xzless when a less exists
+PAGERS = ["xzmore"] + (["xzless"] if shutil.which("less", path=_PATH) else [])
 
 
 def suffix_family(name):
@@ -127,8 +131,13 @@ def _file(draw):
 
 @st.composite
 def scenarios(draw):
-    prog = draw(st.sampled_from(["xzgrep"] * 5 + ["xzegrep", "xzfgrep", "xzdiff", "xzdiff", "xzcmp"]))
+    prog = draw(st.sampled_from(["xzgrep"] * 5 + ["xzegrep", "xzfgrep", "xzdiff", "xzdiff", "xzcmp"] + PAGERS))
     scn = {"prog": prog}
+    if prog in ("xzmore", "xzless"):
+        nf = draw(st.sampled_from([1, 1, 2, 3]))
+        scn["files"] = draw(st.lists(_file(), min_size=nf, max_size=nf))
+        scn["dd"] = draw(st.booleans())
+        return scn
     if prog in ("xzdiff", "xzcmp"):
         scn["files"] = [draw(_file()), draw(_file())]
         scn["single"] = draw(st.sampled_from([False, False, False, True]))
@@ -189,7 +198,7 @@ def bindir():
         raise RuntimeError(f"scratch path {d!r} is not safe to put into $GREP (which xzgrep evaluates)")
     os.makedirs(d, exist_ok=True)
     atexit.register(shutil.rmtree, d, ignore_errors=True)
-    for name, src in (("xzgrep", "xzgrep"), ("xzegrep", "xzgrep"), ("xzfgrep", "xzgrep"), ("xzdiff", "xzdiff"), ("xzcmp", "xzdiff")):
+    for name, src in (("xzgrep", "xzgrep"), ("xzegrep", "xzgrep"), ("xzfgrep", "xzgrep"), ("xzdiff", "xzdiff"), ("xzcmp", "xzdiff"), ("xzmore", "xzmore"), ("xzless", "xzless")):
         p = os.path.join(d, name)
         if not os.path.lexists(p):
             os.symlink(base.tool(src), p)
@@ -351,7 +360,7 @@ def count_meta(S, prefix, s):
             S.count(f"{prefix}:{k}")
     if s.startswith("-"):
         S.count(f"{prefix}:leading-dash")
-    if "touch CANARY" in s or "C20$((" in s or "SEDCANARY" in s:
+    if "CANARY" in s or "C20$((" in s:
         S.count(f"{prefix}:command-text")
 
 
@@ -843,10 +852,54 @@ def early_verdict_on_decodable_prefix(prog, dopts, f1, f2, A, B, env, ref_tool):
     return rc if rc in (0, 1) else None
 
 
+def oracle_pager(scn, S, d):
+    """xzmore / xzless with stdout on a pipe (xzmore: PAGER=cat; less copies its input when it has no terminal).  Asserted: only the
+    part of the statement that speaks about every command - operand names are data: nothing is created or removed in the directory and
+    no output carries the marker that only an executed command prints.  What the pager shows is counted, not judged."""
+    prog = scn["prog"]
+    files = plan_files(scn, S)
+    if files is None:
+        S.inconclusive_count("timeout:compress")
+        return
+    if files[0]["name"] in ("--help", "--version"):
+        S.count("excluded:first-operand-is-a-documented-option")
+        return
+    A = os.path.join(d, "A")
+    os.mkdir(A)
+    for f in files:
+        if f["stored"] is not None:
+            write_file(A, f["name"], f["stored"])
+    names = [f["name"] for f in files]
+    # xzless hands its arguments to less unchanged (options are less's): operands that start with a dash go behind "--"
+    dd = prog == "xzless" and (scn["dd"] or any(n.startswith("-") for n in names))
+    argv = (["--"] if dd else []) + names
+    env = dict(base.clean_env(), PAGER="cat")
+    env.pop("LESS", None)
+    env.pop("LESSOPEN", None)
+    bd = bindir()
+    S.count("prog:" + prog)
+    for f in files:
+        S.count("format:" + f["fmt"])
+        S.count("state:" + f["state"])
+        count_meta(S, "name-meta", f["name"])
+    if any(has_meta(n) for n in names):
+        S.nontrivial(scn, sample={"argv": [prog] + argv, "files": [[f["name"], f["fmt"], f["state"]] for f in files]})
+    before = set(os.listdir(b(A)))
+    rc, out, err = base.run_cmd([b(os.path.join(bd, prog))] + [b(x) for x in argv], stdin=b"", env=env, cwd=A)
+    if rc is None:
+        S.inconclusive_count("timeout:" + prog)
+        return
+    canary_check(A, before, [out, err], f"{prog} {argv!r}")
+    shown = sum(1 for f in files if f["state"] == "ok" and f["fmt"] not in ("gz", "bz2") and f["data"] and f["data"] in out)
+    S.count(f"pager:operands-shown-decompressed:{min(shown, 3)}-of-{len(files)}")
+
+
 def oracle(scn, S):
     d = S.fresh_dir()
     try:
-        if scn["prog"] in ("xzdiff", "xzcmp"):
+        if scn["prog"] in ("xzmore", "xzless"):
+            oracle_pager(scn, S, d)
+        elif scn["prog"] in ("xzdiff", "xzcmp"):
             oracle_diff(scn, S, d)
         else:
             oracle_grep(scn, S, d)
@@ -870,6 +923,20 @@ def fixed_scenarios(S, tier, seed):
                 except base.Violation as v:
                     v.scenario = scn
                     raise
+    # always-run: each command-text fragment as (part of) an operand name of the two pagers, one operand per run
+    for prog in PAGERS:
+        for frag in CMD_META + SED_META[:3]:
+            for stem in ("a" + frag, frag):
+                for fmt in ("xz", "plain"):
+                    scn = {"prog": prog, "dd": False,
+                           "files": [{"stem": stem, "fmt": fmt, "state": "ok", "lines": ["Hello", "World!"], "eol": True, "cut": 0, "lzidx": 0}]}
+                    S.evaluations += 1
+                    S.count("fixed_pager_names")
+                    try:
+                        oracle(scn, S)
+                    except base.Violation as v:
+                        v.scenario = scn
+                        raise
 
 
 if __name__ == "__main__":
